@@ -12,9 +12,14 @@ from . import C06
 from .common import run_configs
 
 LEVEL = "other"
+_TIER = "quick"
 
 
 def body(ck, F, cfg):
+    if _TIER == "thorough" and cfg == "default":
+        from .. import witness
+
+        witness.require(ck, ['W3a', 'W3b'], "WITNESS")
     A = AN.verify_full(F)
     I = A["I"]
     ck.fn(AN.H.P_VER + "verification_scalars")
@@ -82,6 +87,8 @@ def body(ck, F, cfg):
 
 
 def run(tier):
+    global _TIER
+    _TIER = tier
     ck = run_configs(
         "C04", tier, LEVEL, body,
         explanation="The leaf fields of R1CSProof/InnerProductProof are enumerated from the type definitions (so a newly added field without a term is reported). "
